@@ -34,12 +34,30 @@ type T struct {
 	outc   chan string
 	threads []func()
 	tmpfiles []string
+	watch    chan watchReq
 }
 
 type assumeFailed struct{}
 
 func New(vals map[string]string) *T {
-	return &T{vals: vals, occ: map[string]int{}, Notes: map[string]string{}}
+	return &T{vals: vals, occ: map[string]int{}, Notes: map[string]string{}, watch: make(chan watchReq, 1)}
+}
+
+type watchReq struct {
+	site    string
+	seconds int
+}
+
+// MustTerminate states that the rest of the harness has to come to an end:
+// under the engine a path that exhausts its instruction budget after this
+// call is a failed assertion at `site` (instead of an inconclusive path);
+// natively the replay driver gives the harness `seconds` and then records
+// the failure and moves on (the harness goroutine is abandoned).
+func (t *T) MustTerminate(site string, seconds int) {
+	select {
+	case t.watch <- watchReq{site, seconds}:
+	default:
+	}
 }
 
 func (t *T) key(name string) string {
@@ -372,24 +390,38 @@ func runOne(c Case) (o Outcome) {
 			defer os.Unsetenv(k[4:])
 		}
 	}
-	defer func() {
-		if t.saved != nil {
-			t.StdoutEnd()
-		}
-		for _, f := range t.tmpfiles {
-			os.Remove(f)
-		}
-		o.Obs, o.Fails = t.Log, t.Fails
-		if r := recover(); r != nil {
-			if _, ok := r.(assumeFailed); ok {
-				o.Assume = true
-				return
+	done := make(chan struct{})
+	go func() {
+		defer close(done)
+		defer func() {
+			if t.saved != nil {
+				t.StdoutEnd()
 			}
-			o.Panic = fmt.Sprint(r)
-			o.Fails = append(o.Fails, "harness.panic")
-		}
+			for _, f := range t.tmpfiles {
+				os.Remove(f)
+			}
+			o.Obs, o.Fails = t.Log, t.Fails
+			if r := recover(); r != nil {
+				if _, ok := r.(assumeFailed); ok {
+					o.Assume = true
+					return
+				}
+				o.Panic = fmt.Sprint(r)
+				o.Fails = append(o.Fails, "harness.panic")
+			}
+		}()
+		f(t)
 	}()
-	f(t)
+	select {
+	case <-done:
+	case req := <-t.watch:
+		select {
+		case <-done:
+		case <-time.After(time.Duration(req.seconds) * time.Second):
+			// still running: the harness is abandoned where it is
+			return Outcome{Harness: c.Harness, Obs: []string{"did not terminate"}, Fails: []string{req.site}}
+		}
+	}
 	return
 }
 
